@@ -55,9 +55,7 @@ CLAIMS = {
              "permutation invariance; per-record site-kind sequences from the real reader compared with the model over all ordered kind pairs, splits and permutations.",
         note=NOTE_COMMON + " With projection the implementation's binary64 sums depend on order in the last bits; compared within 2^-30 relative."),
     "C12": dict(
-        pending=True,
-        category="exploration",
-        text="PARTIAL. Proved in Lean: detection logic (gzip magic, BCF magic inside/outside gzip), the detection prefix is independent of the read schedule, `sfs create` factors through the decoded call set for all four containers "
+        text="PARTIAL (proof of the logic + exploration of the runtime). Proved in Lean: detection logic (gzip magic, BCF magic inside/outside gzip), the detection prefix is independent of the read schedule, `sfs create` factors through the decoded call set for all four containers "
              "(codecs as parameters with explicit hypotheses), the shape ignores map iteration order. Explored, not proved: noodles' multithreaded BGZF reader, OS transport, hash seeds — each call set is executed 64-200 times "
              "over containers x transports x thread counts x BGZF layouts x repeats and all stdout bytes / exit classes must coincide and equal the model's output.",
         note=NOTE_COMMON + " Thread interleavings and block scheduling live in noodles-bgzf and the OS: no Lean model of this size can exhibit them; repetition explores them."),
